@@ -15,6 +15,17 @@ package main
 // fingerprint, a bad SHA-1 prefix or length of the encrypted answer, a wrong new_nonce_hash1, an
 // alternative constructor, an rpc_error. The replies are data of the operation, so a replay is exact.
 //
+// Several exchanges of one process in ONE operation:
+//
+//   c07.seq <tag> <keyobj> <k> { <the 12 tokens of a c07.hs after its tag> } x k
+//
+// <keyobj>: how the caller holds the public key it configures its clients with (hsKeyObj): a new object for
+// every exchange (fresh), or ONE rsa.PublicKey object that is given the next key before each exchange (slot:
+// struct assignment; setn: the modulus overwritten in place). Each exchange is judged on its own replies and the
+// key the client was configured with AT THAT TIME: replies that offer only the fingerprint of the key the object
+// held earlier are inconsistent. A consistent exchange inside a sequence must succeed and store the session the
+// replies determine. Result: the results of the exchanges, " | " between them.
+//
 // Judge: hsJudgeReplies decides from the protocol description whether the reply sequence is
 // consistent; if not, the client must have returned an error (no panic, no hang, no success), stored
 // no session, left `encrypted` off and sent no encrypted frame.
@@ -31,7 +42,7 @@ import (
 )
 
 var (
-	c07Last *hsRun
+	c07Last []*hsRun // the runs of the last operation, one per exchange
 )
 
 type c07Case struct {
@@ -178,6 +189,7 @@ type c07Base struct {
 
 func c07NewBase(r *Rand, key *rsa.PrivateKey) *c07Base {
 	c := hsRandomCase(r, key)
+	c.S.LaterFps = nil
 	gB := new(big.Int).Exp(big.NewInt(int64(c.S.G)), new(big.Int).SetBytes(c.D.B), c.S.DhPrime)
 	return &c07Base{c: c, gB: gB, h: hsHonest(&c.S, c.D.Nonce, c.D.NewNonce, gB)}
 }
@@ -206,19 +218,95 @@ func (b *c07Base) rewrap(answer []byte) []byte {
 	return hsDHOk(b.c.D.Nonce, s.ServerNonce, hsWrapAnswer(answer, hsSha1(answer), s.Pad, b.c.D.NewNonce, s.ServerNonce))
 }
 
+// c07SeqOp: several exchanges as one operation.
+func c07SeqOp(tag, keyobj string, steps []string) string {
+	parts := []string{"c07.seq", tag, keyobj, strconv.Itoa(len(steps))}
+	for _, st := range steps {
+		parts = append(parts, strings.Join(strings.Fields(st)[2:], " "))
+	}
+	return strings.Join(parts, " ")
+}
+
+// step: the c07.hs line of base b answered with the replies r
+func (b *c07Base) step(r [3][]byte) string {
+	rd := &hsR{b: r[0]}
+	p, q := "-", "-"
+	if rd.u32() == hsIDResPQ {
+		rd.take(32)
+		pq := rd.str()
+		if !rd.bad {
+			p, q = c07Hint(pq)
+		}
+	}
+	return c07Op("x", &b.c.D, &b.c.S.Key.PublicKey, p, q, r)
+}
+
+// offering: the honest replies of b, its resPQ listing exactly the fingerprints fps
+func (b *c07Base) offering(fps ...uint64) [3][]byte {
+	rr := b.h.R
+	rr[0] = hsResPQ(b.c.D.Nonce, b.c.S.ServerNonce, b.c.S.pqBytes(), fps)
+	return rr
+}
+
+// c07Pool: the server keys of this run, used in turn (consecutive exchanges never use the same key)
+var (
+	c07Pool []*rsa.PrivateKey
+	c07Turn int
+)
+
+func c07NextKey() *rsa.PrivateKey {
+	c07Turn++
+	return c07Pool[c07Turn%len(c07Pool)]
+}
+
+// c07GenSequences: the caller keeps the server key in one object and gives it another key between exchanges
+// (another DC, a rotated key, a loop over the keys of a key file). What the client looks for in resPQ must be the
+// fingerprint of the key it is configured with NOW.
+func c07GenSequences(g *G, r *Rand) {
+	fp := func(k *rsa.PrivateKey) uint64 { return hsFingerprint(&k.PublicKey) }
+	for _, ko := range hsKeyObjModes {
+		kA, kB := c07NextKey(), c07NextKey()
+		// honest with A; then configured with B, the server offers only A's fingerprint (refuse); then offers B's (accept)
+		a, b1, b2 := c07NewBase(r, kA), c07NewBase(r, kB), c07NewBase(r, kB)
+		g.Emit(c07SeqOp("seq:earlier-key-offered", ko, []string{a.step(a.h.R), b1.step(b1.offering(fp(kA))), b2.step(b2.h.R)}), "sequence", "sequence:keyobj="+ko, "field:fingerprints")
+		// the mirror: the current key's fingerprint is offered (alone, after the earlier one, before it): accept
+		kA, kB = c07NextKey(), c07NextKey()
+		a, b1, b2 = c07NewBase(r, kA), c07NewBase(r, kB), c07NewBase(r, kB)
+		b3 := c07NewBase(r, kB)
+		g.Emit(c07SeqOp("seq:current-key-offered", ko, []string{a.step(a.h.R), b1.step(b1.offering(fp(kB))), b2.step(b2.offering(fp(kA), fp(kB))), b3.step(b3.offering(fp(kB), fp(kA)))}), "sequence", "sequence:keyobj="+ko, "consistent")
+		// A, B, and A again: after the object went back to the first key, B's fingerprint alone is refused, A's accepted
+		kA, kB = c07NextKey(), c07NextKey()
+		a, b1 = c07NewBase(r, kA), c07NewBase(r, kB)
+		a2, a3 := c07NewBase(r, kA), c07NewBase(r, kA)
+		g.Emit(c07SeqOp("seq:back-to-the-first-key", ko, []string{a.step(a.h.R), b1.step(b1.h.R), a2.step(a2.offering(fp(kB))), a3.step(a3.offering(r.U64(), fp(kA)))}), "sequence", "sequence:keyobj="+ko, "field:fingerprints")
+		// the first exchange is abandoned (a fault late in it: the fingerprint has been looked for by then), the
+		// next one with another key is offered the abandoned exchange's key
+		kA, kB = c07NextKey(), c07NextKey()
+		a, b1, b2 = c07NewBase(r, kA), c07NewBase(r, kB), c07NewBase(r, kB)
+		rr := a.h.R
+		rr[2] = hsTriple(hsIDDHGenOk, a.c.D.Nonce, a.c.S.ServerNonce, c07Corrupt(r, "flip", a.h.NonceHash1, nil))
+		g.Emit(c07SeqOp("seq:after-an-abandoned-exchange", ko, []string{a.step(rr), b1.step(b1.offering(fp(kA), r.U64())), b2.step(b2.h.R)}), "sequence", "sequence:keyobj="+ko, "field:fingerprints")
+	}
+}
+
 func c07Gen(g *G) {
 	r := g.R
-	key := hsKeyGen(r)
+	c07Pool = hsKeyPool(r, g.N(3, 4))
+	key := c07Pool[0]
+	c07GenSequences(g, r)
 	rounds := g.N(2, 32)
 	for round := 0; round < rounds; round++ {
 		c07GenRound(g, r, key, round)
+		if g.Thorough() && round%4 == 3 {
+			c07GenSequences(g, r)
+		}
 	}
 	// (6) replies the TL layer cannot decode, last: before pending_fixes/C07-undecodable-reply-error such
 	// a reply ends the whole process (the receive loop's check(err)), and with it this run
 	for round := 0; round < rounds; round++ {
 		for i := 0; i < 3; i++ {
 			for _, kind := range []string{"unknown-id", "truncated", "empty", "vector", "idflip", "trailing-cut"} {
-				b := c07NewBase(r, key)
+				b := c07NewBase(r, c07NextKey())
 				rr := b.h.R
 				switch kind {
 				case "unknown-id":
@@ -242,7 +330,8 @@ func c07Gen(g *G) {
 }
 
 func c07GenRound(g *G, r *Rand, key *rsa.PrivateKey, round int) {
-	nb := func() *c07Base { return c07NewBase(r, key) }
+	// the keys of the pool in turn: consecutive exchanges of this process use different server keys
+	nb := func() *c07Base { return c07NewBase(r, c07NextKey()) }
 	intB := func(x *big.Int, s *hsSecrets) []byte { return hsIntBytes(x, s.Minimal) }
 
 	// (0) no fault: the consistent sequence is accepted
@@ -554,8 +643,45 @@ func c07GenRound(g *G, r *Rand, key *rsa.PrivateKey, round int) {
 	}
 }
 
+// c07ParseSeq: the exchanges of a c07.seq operation.
+func c07ParseSeq(op []string) (keyobj string, steps []*c07Case, ok bool) {
+	if len(op) < 4 || op[0] != "c07.seq" {
+		return "", nil, false
+	}
+	k, err := strconv.Atoi(op[3])
+	if err != nil || k < 1 || len(op) != 4+12*k {
+		return "", nil, false
+	}
+	keyobj = op[2]
+	if keyobj != "fresh" && keyobj != "slot" && keyobj != "setn" {
+		return "", nil, false
+	}
+	for i := 0; i < k; i++ {
+		c, ok := c07Parse(append([]string{"c07.hs", "x"}, op[4+12*i:4+12*(i+1)]...))
+		if !ok {
+			return "", nil, false
+		}
+		steps = append(steps, c)
+	}
+	return keyobj, steps, true
+}
+
 func c07Exec(op []string) string {
 	c07Last = nil
+	if len(op) > 0 && op[0] == "c07.seq" {
+		keyobj, steps, ok := c07ParseSeq(op)
+		if !ok {
+			return "bad-op"
+		}
+		ko := &hsKeyObj{Mode: keyobj}
+		var lines []string
+		for _, c := range steps {
+			run := hsExchange(&c.D, ko.next(&c.Pub), nil, c.R, false)
+			c07Last = append(c07Last, run)
+			lines = append(lines, hsResultLine(run))
+		}
+		return strings.Join(lines, " | ")
+	}
 	c, ok := c07Parse(op)
 	if !ok {
 		return "bad-op"
@@ -564,7 +690,7 @@ func c07Exec(op []string) string {
 	hsAftermath = strings.HasSuffix(op[1], "+after")
 	run := hsExchange(&c.D, &c.Pub, nil, c.R, false)
 	hsAftermath = false
-	c07Last = run
+	c07Last = []*hsRun{run}
 	return hsResultLine(run)
 }
 
@@ -572,17 +698,44 @@ func c07Judge(op []string, out string) string {
 	if out == "bad-op" {
 		return ""
 	}
-	run := c07Last
+	runs := c07Last
+	if op[0] == "c07.seq" {
+		keyobj, steps, ok := c07ParseSeq(op)
+		if !ok || len(runs) != len(steps) {
+			return "no run recorded"
+		}
+		var bad []string
+		for i, c := range steps {
+			for _, b := range c07JudgeRun(c, runs[i], true) {
+				bad = append(bad, fmt.Sprintf("exchange %d of %d in this process (client configured with key %s…, fingerprint %016x, key object %s): %s",
+					i+1, len(steps), hexD(c.Pub.N.Bytes()[:4]), hsFingerprint(&c.Pub), keyobj, b))
+			}
+		}
+		return strings.Join(bad, "; ")
+	}
 	c, ok := c07Parse(op)
-	if run == nil || !ok {
+	if len(runs) != 1 || !ok {
 		return "no run recorded"
 	}
+	return strings.Join(c07JudgeRun(c, runs[0], false), "; ")
+}
+
+// c07JudgeRun: one exchange against its own replies. mustAccept: a consistent reply sequence has to be accepted
+// (asked of the exchanges of a sequence, whose consistent members are a conformant server's replies).
+func c07JudgeRun(c *c07Case, run *hsRun, mustAccept bool) []string {
 	v := hsJudgeReplies(&c.D, &c.Pub, c.R)
-	if v.Consistent {
-		return ""
-	}
 	var bad []string
 	add := func(f string, a ...interface{}) { bad = append(bad, fmt.Sprintf(f, a...)) }
+	if v.Consistent {
+		if mustAccept {
+			if run.Outcome != "ok" {
+				add("the replies are a consistent answer sequence for this client and its key, but the exchange ended with %s (%s)", run.Outcome, run.ErrText)
+			} else if len(run.Stores) != 1 || !bytes.Equal(run.Stores[0].Key, v.AuthKey) || run.Stores[0].Salt != v.Salt || !bytes.Equal(run.AuthKey, v.AuthKey) {
+				add("consistent replies accepted, but the client holds / stored another key or salt than they determine: holds %s, stored %s", showBytes(run.AuthKey), hsShowStores(run.Stores, run.Addr))
+			}
+		}
+		return bad
+	}
 	if !strings.HasPrefix(run.Outcome, "err:") {
 		add("inconsistent replies (%s) but the exchange ended with %s, not with an error", v.Why, run.Outcome)
 	}
@@ -595,7 +748,7 @@ func c07Judge(op []string, out string) string {
 	if len(run.Srv.Enc) != 0 {
 		add("inconsistent replies (%s) but the client sent %d encrypted frame(s)", v.Why, len(run.Srv.Enc))
 	}
-	return strings.Join(bad, "; ")
+	return bad
 }
 
 func init() {
